@@ -245,6 +245,11 @@ def lut_model(opname, dtype, in_q, out_q, alpha=None):
         opts = ("LeakyReluOptions", dict(Alpha=alpha))
     elif opname == "HARD_SWISH":
         opts = ("HardSwishOptions", {})
+    elif opname == "EXP":
+        opts = ("ExpOptions", {})
+    elif opname in ("GELU", "GELU_TANH"):
+        opts = ("GeluOptions", dict(Approximate=opname == "GELU_TANH"))
+        opname = "GELU"
     return dict(subgraphs=[dict(name="main", tensors=[t_in, t_out], inputs=[0], outputs=[1], ops=[dict(op=opname, inputs=[0], outputs=[1], opts=opts)])])
 
 
@@ -287,6 +292,16 @@ def lut_expected(case):
         elif op == "HARD_SWISH":
             y = real * min(max(real + 3.0, 0.0), 6.0) / 6.0
             acc.add(max(lo, min(hi, Q.hard_swish_ref(x, zp_in, zp_out, s_in, s_out))))
+        elif op == "EXP":
+            y = math.exp(min(real, 700.0))
+        elif op == "LOG":
+            y = math.log(real) if real > 0 else -1e30
+        elif op == "SQRT":
+            y = math.sqrt(max(real, 0.0))
+        elif op == "GELU":
+            y = 0.5 * real * (1 + math.erf(real / math.sqrt(2)))
+        elif op == "GELU_TANH":
+            y = 0.5 * real * (1 + math.tanh(math.sqrt(2 / math.pi) * (real + 0.044715 * real ** 3)))
         r = y / s_out
         f = math.floor(abs(r) + 0.5)
         cands = {f}
@@ -320,6 +335,13 @@ def lut_cases(tier):
                     for o in outs:
                         for a in alphas:
                             cases.append(dict(op=op, dtype=dtype, in_q=[s_in, z_in], out_q=[o[0], o[1]], alpha=a))
+    # functions evaluated through the generic 8-bit table builder (negative results, results far outside the output range)
+    for op in ("EXP", "LOG", "SQRT", "GELU", "GELU_TANH"):
+        for s_in in ([1 / 64, 0.0235, 0.1] if tier == "quick" else [2.0 ** e for e in range(-7, 0)] + [0.0235, 0.1]):
+            for z_in in ((-128, 0, 40) if tier != "quick" else (-128, 0)):
+                outs = {"EXP": [(1 / 16, -128), (0.05, -100)], "LOG": [(1 / 32, 0), (0.05, 20)], "SQRT": [(1 / 64, -128), (0.02, -50)]}.get(op, [(s_in, z_in), (s_in / 2, -5)])
+                for o in outs:
+                    cases.append(dict(op=op, dtype="int8", in_q=[s_in, z_in], out_q=[o[0], o[1]], alpha=None))
     return cases
 
 
